@@ -3520,3 +3520,79 @@ def pur7(ctx):
         r.report("PUR-7|run|returned", fn_loc(b), b.path,
                  "asca::run does not return the list phrases_to_string made but one built from %s: entry i of the result is no longer tied to line i of the input (re-inserting skipped blank lines by a second, different blank test shifts every later word)" % (", ".join(extra)[:300] or "nothing traceable"))
     return r
+
+
+# ---------------------------------------------------------------- SUP-9: every length change is booked, whatever its sign
+
+def sup9(ctx):
+    """SubRule::substitution edits several segments of one syllable in turn and keeps `total_len_change[syll]` so that the
+    index of a later target accounts for copies inserted or removed by an earlier output element. Every call that returns
+    a length change (`apply_seg_mods`, `replace_segment`, `insert_segment`) has its result added to that table
+    unconditionally -- as the next thing in the same block, not under a test of its sign: a shortening that is not
+    booked leaves every later index of the syllable one too far."""
+    r = RuleResult("SUP-9", "SubRule::substitution: the length change returned by apply_seg_mods / replace_segment / insert_segment is added to total_len_change unconditionally (a direct statement of the same block)", floor=6)
+    lib = ctx.lib
+    b = ctx.fn(lib, "asca::subrule::SubRule::substitution")
+    root = b.hir["body"]
+    par = hirq.parent_map(root)
+    LC = ("::apply_seg_mods", "::replace_segment", "::insert_segment")
+    # the table: a local Vec<i8> indexed and add-assigned
+    tables = {hirq.strip(x["lhs"]["a"]).get("local") for x in hirq.walk(root)
+              if x["e"] == "assignop" and x.get("op") in ("Add", "AddAssign") and hirq.strip(x["lhs"]).get("e") == "index" and (hirq.strip(x["lhs"]).get("of_ty") or "").endswith("Vec<i8>")}
+    tables.discard(None)
+    if not tables:
+        raise AnchorMissing("SUP-9: substitution keeps no Vec<i8> table of length changes any more")
+
+    def is_book(st, name=None, call=None):
+        st = hirq.strip(st)
+        if st.get("e") != "assignop" or st.get("op") not in ("Add", "AddAssign"):
+            return False
+        lhs = hirq.strip(st["lhs"])
+        if lhs.get("e") != "index" or hirq.strip(lhs["a"]).get("local") not in tables:
+            return False
+        if call is not None:
+            return any(y is call for y in hirq.walk(st["rhs"]))
+        rhs = hirq.strip(st["rhs"])
+        return rhs.get("e") == "path" and rhs.get("local") == name
+    n = 0
+    k = 0
+    for x in hirq.walk(root):
+        if x["e"] != "mcall" or not (x.get("def") or "").endswith(LC) or not (x.get("ty") or "").startswith("core::result::Result<i8"):
+            continue
+        # only where a later target of the same match still reads the table: inside a loop that indexes it for reading
+        lp = par.get(id(x))
+        while lp is not None and lp.get("e") != "loop":
+            lp = par.get(id(lp))
+        if lp is None:
+            continue
+        lhs_ids = {id(hirq.strip(y["lhs"])) for y in hirq.walk(lp) if y["e"] in ("assignop", "assign")}
+        if not any(y["e"] == "index" and hirq.strip(y["a"]).get("local") in tables and id(y) not in lhs_ids for y in hirq.walk(lp)):
+            continue
+        n += 1
+        # climb out of the `?`
+        cur = x
+        p = par.get(id(cur))
+        while p is not None and (p.get("e") == "match" and "TryDesugar" in str(p.get("src")) or p.get("e") == "call" and "Try::branch" in (hirq.strip(p["f"]).get("path") or "")):
+            cur, p = p, par.get(id(p))
+        ok = False
+        why = "its result is neither bound nor added to the table"
+        if p is not None and p.get("e") == "assignop" and is_book(p, call=x):
+            ok = True
+        elif p is not None and p.get("e") == "let" and p["pat"].get("p") == "bind":
+            name = p["pat"]["name"]
+            blk = par.get(id(p))
+            if blk is not None and blk.get("e") == "block":
+                after = hirq.stmts_after(blk, p)
+                ok = any(is_book(st, name=name) for st in after)
+                if not ok:
+                    nested = any(is_book(y, name=name) for st in after for y in hirq.walk(st))
+                    why = "`%s` is added to the table only under a condition" % name if nested else "`%s` is never added to the table" % name
+        callee = (x.get("def") or "").rsplit("::", 1)[-1]
+        r.inst("substitution: length change of %s #%d is booked unconditionally" % (callee, k), fn_loc(b, x.get("ln")), "ok" if ok else "report")
+        if not ok:
+            r.report("SUP-9|substitution|%s#%d" % (callee, k), fn_loc(b, x.get("ln")), b.path,
+                     "the length change returned by %s is not booked on every path (%s): after a shortening (`V:[+long] C > [-long] [+long]` on `taːks`) the next output element of the same syllable is applied one segment too far" % (callee, why))
+        k += 1
+    if n < 6:
+        raise AnchorMissing("SUP-9: %d length-changing calls found in substitution (expected >= 6)" % n)
+    return r
